@@ -68,7 +68,55 @@ func isFlagsAddr(addr ssa.Value) bool {
 			}
 		}
 	}
+	// src[i] in the decoder that makes the field a view of exactly that byte: h.mtypeflags = src[i : i+1]
+	if ia, ok := ir.SeeThrough(addr).(*ssa.IndexAddr); ok && ia.Parent() != nil {
+		for _, b := range ia.Parent().Blocks {
+			for _, in := range b.Instrs {
+				st, ok := in.(*ssa.Store)
+				if !ok {
+					continue
+				}
+				sp := ir.PathOf(st.Addr)
+				if len(sp.Fields) == 0 || sp.Fields[len(sp.Fields)-1] != "mtypeflags" {
+					continue
+				}
+				sl, ok := st.Val.(*ssa.Slice)
+				if !ok || ir.SeeThrough(sl.X) != ir.SeeThrough(ia.X) || sl.Low == nil || sl.High == nil {
+					continue
+				}
+				sameIdx := sl.Low == ia.Index
+				if k1, ok1 := sl.Low.(*ssa.Const); ok1 {
+					if k2, ok2 := ia.Index.(*ssa.Const); ok2 && k1.Value != nil && k2.Value != nil && k1.Value.ExactString() == k2.Value.ExactString() {
+						sameIdx = true
+					}
+				}
+				if !sameIdx {
+					continue
+				}
+				if hb, ok := sl.High.(*ssa.BinOp); ok && hb.Op == token.ADD && (hb.X == sl.Low || sameConst(hb.X, sl.Low)) {
+					if k, ok := hb.Y.(*ssa.Const); ok && k.Value != nil && k.Value.ExactString() == "1" {
+						return true
+					}
+				}
+				if kh, ok := sl.High.(*ssa.Const); ok {
+					if kl, ok := sl.Low.(*ssa.Const); ok && kh.Value != nil && kl.Value != nil {
+						if h, ok1 := constant.Int64Val(kh.Value); ok1 {
+							if l, ok2 := constant.Int64Val(kl.Value); ok2 && h == l+1 {
+								return true
+							}
+						}
+					}
+				}
+			}
+		}
+	}
 	return false
+}
+
+func sameConst(a, b ssa.Value) bool {
+	k1, ok1 := a.(*ssa.Const)
+	k2, ok2 := b.(*ssa.Const)
+	return ok1 && ok2 && k1.Value != nil && k2.Value != nil && k1.Value.ExactString() == k2.Value.ExactString()
 }
 
 func bitStr(b bits.Bit) string {
